@@ -124,6 +124,61 @@ class PendingComp(PendingExprGeneric[_CompNode]):
             raise RuntimeError("Unknown comprehension target")
 
 
+class PendingLambda(PendingExprGeneric[Lambda]):
+    target_names: set[str]  # the parameters: plain local names of the lambda
+
+    def __init__(self, node: Lambda, nsp: Namespace):
+        self.node = node
+        self.nsp = nsp
+        self.body = None
+        self.target_names = set()
+
+        _args = node.args
+        for _arg in _args.posonlyargs + _args.args + _args.kwonlyargs:
+            self.target_names.add(_arg.arg)
+        if _args.vararg is not None:
+            self.target_names.add(_args.vararg.arg)
+        if _args.kwarg is not None:
+            self.target_names.add(_args.kwarg.arg)
+
+        self.iter_fields = self._iter_fields()
+
+    def _iter_fields(self):
+        _args = self.node.args
+        # defaults are evaluated in the enclosing namespace
+        self.defaults = []
+        for default in _args.defaults:
+            self.defaults.append((yield default))
+        self.kw_defaults = []
+        for kw_default in _args.kw_defaults:
+            if kw_default is None:
+                self.kw_defaults.append(None)
+            else:
+                self.kw_defaults.append((yield kw_default))
+
+        # the parameters shadow outer names inside the body only
+        self.nsp.comp_stack.append(self)
+        self.body = yield self.node.body
+        assert self.nsp.comp_stack[-1] is self
+        self.nsp.comp_stack.pop()
+
+    def get_result(self) -> expr:
+        assert self.body is not None
+        _args = self.node.args
+        return Lambda(
+            args=arguments(
+                posonlyargs=_args.posonlyargs,
+                args=_args.args,
+                vararg=_args.vararg,
+                kwonlyargs=_args.kwonlyargs,
+                kw_defaults=self.kw_defaults,
+                kwarg=_args.kwarg,
+                defaults=self.defaults,
+            ),
+            body=self.body,
+        )
+
+
 class ExpressionTransformer:
     def __init__(self, nsp: Namespace):
         self.pending_stack: list[PendingExprGeneric] = []
@@ -143,6 +198,8 @@ class ExpressionTransformer:
             return PendingName(node, self.nsp)
         elif isinstance(node, (ListComp, SetComp, DictComp, GeneratorExp)):
             return PendingComp(node, self.nsp)
+        elif isinstance(node, Lambda):
+            return PendingLambda(node, self.nsp)
         else:
             return PendingExpr(node)
 
